@@ -5,8 +5,28 @@ St  == [scopes |-> scopes, guards |-> guards, held |-> held]
 StP == [scopes |-> scopes', guards |-> guards', held |-> held']
 PrintEdge == PrintT(<<"EDGE", ToJson([from |-> St, act |-> act', res |-> res', to |-> StP])>>)
 SmallForms == {"-", "try_borrow", "borrow_mut", "try_borrow_mut", "try_get_value", "borrow_value", "remove", "take",
-               "or_insert", "and_modify_or_insert", "occ_remove", "try_get_multiple_mut", "get_multiple_mut", "ok", "fail"}
+               "or_insert", "and_modify_or_insert", "occ_remove", "try_get_multiple_mut", "get_multiple_mut", "tuple_try_get_mut", "tuple_distinct", "ok", "fail"}
 PrintEdgeSmall == act'.f \in SmallForms /\ PrintEdge
+\* ---- the universe of the types the convenience accessors of State look up.  One of them is in play at a time
+\* (bound anywhere in the chain): the state space is the sum, not the product, of the per-type spaces.
+InPlay == {t \in Type : \E i \in 1..Len(scopes) : scopes[i][t] # NoVal} \cup {held[j].t : j \in 1..Len(held)}
+InPlayNext == {t \in Type : \E i \in 1..Len(scopes') : scopes'[i][t] # NoVal} \cup {held'[j].t : j \in 1..Len(held')}
+OneTypeInPlay == Cardinality(InPlayNext) <= 1
+\* what rustc lets a caller write down: the *_value forms, set_value and or_default exist only for types that deref
+\* to a plain value and have a Default; a Log has no content a caller could write (its only abstract value is 0)
+Opaque == {"BestIndividual", "Populations", "Random", "Log"}
+ValueOnly == {"try_get_value", "get_value", "try_borrow_value", "borrow_value", "try_borrow_value_mut",
+              "borrow_value_mut", "or_default", "and_modify_value"}
+Writable == /\ act'.t \in Opaque => act'.f \notin ValueOnly /\ act'.op # "set_value"
+            /\ act'.t = "Log" => act'.v \in {0, NoVal} /\ act'.w \in {0, NoVal}
+            /\ "Log" \in Type => /\ \A i \in 1..Len(scopes') : scopes'[i]["Log"] \in {0, NoVal}
+                                  /\ \A j \in 1..Len(held') : held'[j].t = "Log" => held'[j].v = 0
+AccSmallForms == {"-", "try_borrow", "borrow", "try_borrow_mut", "remove", "or_insert", "occ_remove", "ok", "fail"}
+                 \cup AccForms
+PrintEdgeAcc == OneTypeInPlay /\ Writable /\ act'.f \in AccSmallForms /\ PrintEdge
+AccOnly == OneTypeInPlay /\ Writable
+TuplesNone == {}
+TuplesPair == [1..2 -> Type]
 TuplesQ == UNION {[1..n -> Type] : n \in 2..3}
 TuplesT == UNION {[1..n -> Type] : n \in 2..4}
 =============================================================================
